@@ -579,7 +579,7 @@ def preauth(ctx, seed):
     return fails
 
 
-AUTH_DEVIATIONS = ['id_data', 'id_type', 'auth_garbage', 'auth_method', 'drop_auth', 'drop_id', 'empty']
+AUTH_DEVIATIONS = ['id_data', 'id_type', 'id_case', 'auth_garbage', 'auth_method', 'drop_auth', 'drop_id', 'empty']
 
 
 def deviant_auth(ctx, seed, only=None):
